@@ -2,13 +2,18 @@
 """c20_policy.py <repo_root> <gen_dir>
 
 Regenerates lean/AndaVerif/Gen/BeliefPolicy.lean from
-  rs/anda_cognitive_nexus/src/projection/policy.rs   (baseline / forecast constants, mode_exclusion table)
-  rs/anda_cognitive_nexus/src/projection/mod.rs      (classify: threshold comparisons and return order;
-                                                      eligible: status arms, window comparisons)
-The model (Model/Belief.lean) takes the generated constants as its baseline policy, its exclusion
-table and checks (in the generated facts) that the comparison skeleton it mirrors is still the
-code's. Works on a comment-stripped copy; keys on names, not on layout. Strict: a missing,
-duplicated or ambiguous marker is an error (exit 1 with one line on stderr), never a default.
+  rs/anda_cognitive_nexus/src/projection/policy.rs   (baseline / forecast constants, mode_exclusion table,
+                                                      from_settings: refusal, custom suffix, threshold range)
+  rs/anda_cognitive_nexus/src/projection/mod.rs      (classify: threshold comparisons and verdict order;
+                                                      eligible: lifecycle table, stage order, window
+                                                      comparisons, what it reads; aggregate: side filters, clamp)
+
+Robust to behaviour-preserving rewrites: every function is read as its *linearised call tree* (calls of
+functions defined in the same file are replaced by the callee's body, with the callee's parameters
+renamed to the caller's argument names), parameters are identified by TYPE or position (never by name),
+locals by what they are computed from, match arms are emitted in a canonical order (disjoint literal
+patterns commute), and only semantic facts are emitted (no counts of helpers, no local names).
+Strict about meaning: a missing / duplicated / ambiguous anchor is an error (exit 1, one line on stderr).
 """
 import os, re, sys
 from fractions import Fraction
@@ -20,6 +25,7 @@ def die(msg):
 
 
 def strip_comments(src):
+    """removes comments, keeps string literals"""
     out, i, n = [], 0, len(src)
     while i < n:
         c = src[i]
@@ -45,50 +51,118 @@ def strip_comments(src):
     return "".join(out)
 
 
-def body_of(src, header_re, what):
-    ms = list(re.finditer(header_re, src))
-    if len(ms) != 1:
-        die(f"expected exactly one `{what}`, found {len(ms)}")
-    i = src.index("{", ms[0].end() - 1) if src[ms[0].end() - 1] != "{" else ms[0].end() - 1
+def cut_tests(src):
+    m = re.search(r"#\[cfg\(test\)\]\s*(?:pub\s+)?mod\s+\w+", src)
+    return src[:m.start()] if m else src
+
+
+def skip_string(s, j):
+    k = j + 1
+    while k < len(s) and s[k] != '"':
+        k += 2 if s[k] == "\\" else 1
+    return k + 1
+
+
+def matching(s, i, open_ch, close_ch):
+    """index just after the bracket matching s[i] == open_ch (strings skipped)"""
     depth, j = 0, i
-    while j < len(src):
-        if src[j] == '"':
-            k = j + 1
-            while k < len(src) and src[k] != '"':
-                k += 2 if src[k] == "\\" else 1
-            j = k + 1
-            continue
-        if src[j] == "{":
+    while j < len(s):
+        if s[j] == '"':
+            j = skip_string(s, j); continue
+        if s[j] == open_ch:
             depth += 1
-        elif src[j] == "}":
+        elif s[j] == close_ch:
             depth -= 1
             if depth == 0:
-                return src[i + 1:j]
+                return j + 1
         j += 1
-    die(f"unbalanced braces in `{what}`")
+    die("unbalanced brackets")
 
 
-def params_of(src, name):
-    """Names of the (non-self) parameters of `fn name(...)`, in order."""
-    ms = list(re.finditer(rf"fn\s+{name}\s*\(", src))
-    if len(ms) != 1:
-        die(f"expected exactly one `fn {name}`, found {len(ms)}")
-    i = ms[0].end()
-    depth, j = 1, i
-    while j < len(src) and depth:
-        depth += src[j] in "(<["
-        depth -= src[j] in ")>]"
-        j += 1
-    names = []
-    for part in re.split(r",(?![^<(]*[>)])", src[i:j - 1]):
-        part = part.strip()
-        if not part or re.fullmatch(r"&?\s*(mut\s+)?self", part):
+class Fn:
+    def __init__(self, name, params, body):
+        self.name, self.params, self.body = name, params, body   # params: [(name, type)] without self
+
+
+def functions(src):
+    """all fn items of a (comment-stripped, test-free) file: name -> Fn (a duplicated name is ambiguous)"""
+    fns, dup = {}, set()
+    for m in re.finditer(r"\bfn\s+([A-Za-z_]\w*)\s*(?:<[^>(]*>)?\s*\(", src):
+        name = m.group(1)
+        pe = matching(src, m.end() - 1, "(", ")")
+        plist = src[m.end():pe - 1]
+        k = pe
+        # the body starts at the first `{` after the signature (skip the return type; `where` clauses do not occur here)
+        while k < len(src) and src[k] not in "{;":
+            k += 1
+        if k >= len(src) or src[k] == ";":
             continue
-        m = re.match(r"(?:mut\s+)?(\w+)\s*:", part)
+        be = matching(src, k, "{", "}")
+        params = []
+        depth, cur = 0, ""
+        for ch in plist + ",":
+            if ch in "(<[":
+                depth += 1
+            elif ch in ")>]":
+                depth -= 1
+            if ch == "," and depth == 0:
+                part = cur.strip(); cur = ""
+                if not part or re.fullmatch(r"&?\s*(?:'\w+\s+)?(?:mut\s+)?self", part):
+                    continue
+                pm = re.match(r"(?:mut\s+)?(\w+)\s*:\s*(.*)$", part, re.S)
+                if not pm:
+                    die(f"cannot read a parameter of fn {name}: {part!r}")
+                params.append((pm.group(1), re.sub(r"\s+", " ", pm.group(2).strip())))
+            else:
+                cur += ch
+        if name in fns:
+            dup.add(name)
+        fns[name] = Fn(name, params, src[k + 1:be - 1])
+    for d in dup:
+        fns.pop(d, None)      # ambiguous names are never inlined (their callers keep the call)
+    return fns
+
+
+CALL = re.compile(r"(?:\bself\s*\.\s*|\bSelf\s*::\s*|\bPolicy\s*::\s*|(?<![\w.:]))([A-Za-z_]\w*)\s*(?:::<[^>()]*>)?\(")
+
+
+def linearise(fns, name, stack=(), depth=0, keep=()):
+    """body of fn `name` with every call of a function of the same file replaced by `{ <callee body> }`,
+    the callee's parameters renamed to the caller's argument identifiers (when the argument is one)."""
+    if name not in fns:
+        die(f"fn {name} not found (or defined more than once)")
+    body = fns[name].body
+    if depth > 6:
+        return body
+    out, i = [], 0
+    while True:
+        m = CALL.search(body, i)
         if not m:
-            die(f"cannot read a parameter of `fn {name}`: {part!r}")
-        names.append(m.group(1))
-    return names
+            out.append(body[i:]); break
+        callee = m.group(1)
+        if callee not in fns or callee in keep or callee == name or callee in stack or re.search(r"\bfn\s*$", body[:m.start()]):
+            out.append(body[i:m.end()]); i = m.end(); continue
+        ae = matching(body, m.end() - 1, "(", ")")
+        args, d, cur = [], 0, ""
+        for ch in body[m.end():ae - 1] + ",":
+            if ch in "([{<":
+                d += 1
+            elif ch in ")]}>":
+                d -= 1
+            if ch == "," and d == 0:
+                if cur.strip():
+                    args.append(cur.strip())
+                cur = ""
+            else:
+                cur += ch
+        inner = linearise(fns, callee, stack + (name,), depth + 1, keep)
+        for (pname, _), arg in zip(fns[callee].params, args):
+            a = re.sub(r"^(?:&\s*mut\s+|&\s*|\*\s*)", "", arg).strip()
+            if re.fullmatch(r"[A-Za-z_]\w*", a) and a != pname:
+                inner = re.sub(rf"(?<![\w.]){re.escape(pname)}\b", a, inner)
+        out.append(body[i:m.start()] + "{ " + inner + " }")
+        i = ae
+    return "".join(out)
 
 
 def one(pattern, text, what, flags=0):
@@ -98,8 +172,30 @@ def one(pattern, text, what, flags=0):
     return ms[0]
 
 
+def param_by_type(fn, type_re, what):
+    hits = [n for n, t in fn.params if re.search(type_re, t)]
+    if len(hits) != 1:
+        die(f"fn {fn.name}: expected exactly one parameter of type {what}, found {hits}")
+    return hits[0]
+
+
+def const_str(src, name):
+    return one(rf'\bconst\s+{name}\s*:\s*&\s*(?:\'static\s+)?str\s*=\s*"([^"]*)"', src, f"const {name}")
+
+
+def string_or_const(src, expr, what):
+    """value of `"lit"…` or `CONST…` (e.g. `FORECAST_ID.to_string()`)"""
+    m = re.match(r'\s*"([^"]*)"', expr)
+    if m:
+        return m.group(1)
+    m = re.match(r"\s*(?:Self::|self::|super::)?([A-Z][A-Z0-9_]*)\b", expr)
+    if m:
+        return const_str(src, m.group(1))
+    die(f"cannot evaluate {what}: {expr[:40]!r}")
+
+
 def modes_of(text, what):
-    m = one(r"modes\s*:\s*vec!\s*\[(.*?)\]", text, f"`modes: vec![…]` in {what}", re.S)
+    m = one(r"\bmodes\s*:\s*vec!\s*\[(.*?)\]", text, f"`modes: vec![…]` in {what}", re.S)
     names = re.findall(r"AssertionMode::(\w+)", m)
     if not names:
         die(f"no AssertionMode in the mode list of {what}")
@@ -110,17 +206,74 @@ def lean_str_list(xs):
     return "[" + ", ".join('"' + x + '"' for x in xs) + "]"
 
 
+def match_arms(text, scrutinee_re, what):
+    """arms of the unique `match <scrutinee> { … }`: [(pattern text, guard or None, arm expression)]"""
+    ms = list(re.finditer(rf"\bmatch\s+{scrutinee_re}\s*\{{", text))
+    if len(ms) != 1:
+        die(f"expected exactly one `match` on {what}, found {len(ms)}")
+    start = ms[0].end() - 1
+    end = matching(text, start, "{", "}")
+    body = text[start + 1:end - 1]
+    # split into arms at depth 0 on `=>`
+    arms, j, depth, arm_start = [], 0, 0, 0
+    heads = []
+    while j < len(body):
+        ch = body[j]
+        if ch == '"':
+            j = skip_string(body, j); continue
+        if ch in "([{":
+            depth += 1
+        elif ch in ")]}":
+            depth -= 1
+        elif depth == 0 and body.startswith("=>", j):
+            heads.append((arm_start, j)); j += 2
+            # the arm expression: a block, or up to the next top-level comma
+            k = j
+            while k < len(body) and body[k].isspace():
+                k += 1
+            if k < len(body) and body[k] == "{":
+                e = matching(body, k, "{", "}")
+                # a block arm may be followed by method calls (rare) – stop at the comma or next pattern
+            else:
+                e, d = k, 0
+                while e < len(body):
+                    if body[e] == '"':
+                        e = skip_string(body, e); continue
+                    if body[e] in "([{":
+                        d += 1
+                    elif body[e] in ")]}":
+                        d -= 1
+                    elif body[e] == "," and d == 0:
+                        break
+                    e += 1
+            arms.append((body[arm_start:heads[-1][1]].strip(), body[j:e].strip()))
+            j = e
+            while j < len(body) and (body[j].isspace() or body[j] == ","):
+                j += 1
+            arm_start = j
+            continue
+        j += 1
+    out = []
+    for head, expr in arms:
+        g = re.match(r"(.*?)\s+if\s+(.*)$", head, re.S)
+        out.append((g.group(1).strip(), g.group(2).strip(), expr) if g else (head, None, expr))
+    return out, ms[0].start()
+
+
 def main():
     if len(sys.argv) != 3:
         die("usage: c20_policy.py <repo_root> <gen_dir>")
     repo, gen = sys.argv[1], sys.argv[2]
-    pol = strip_comments(open(os.path.join(repo, "rs/anda_cognitive_nexus/src/projection/policy.rs")).read())
-    mod = strip_comments(open(os.path.join(repo, "rs/anda_cognitive_nexus/src/projection/mod.rs")).read())
+    pol = cut_tests(strip_comments(open(os.path.join(repo, "rs/anda_cognitive_nexus/src/projection/policy.rs")).read()))
+    mod = cut_tests(strip_comments(open(os.path.join(repo, "rs/anda_cognitive_nexus/src/projection/mod.rs")).read()))
+    pf, mf = functions(pol), functions(mod)
 
-    baseline_id = one(r'const\s+BASELINE_ID\s*:\s*&str\s*=\s*"([^"]*)"', pol, "BASELINE_ID")
-    baseline_version = int(one(r"const\s+BASELINE_VERSION\s*:\s*u64\s*=\s*(\d+)", pol, "BASELINE_VERSION"))
-
-    base = body_of(pol, r"pub\s+fn\s+baseline\s*\(\s*\)\s*->\s*Self\s*\{", "fn baseline")
+    # ------------------------------------------------------------------ policy.rs: constants
+    baseline_id = const_str(pol, "BASELINE_ID")
+    baseline_version = int(one(r"\bconst\s+BASELINE_VERSION\s*:\s*u64\s*=\s*(\d+)", pol, "BASELINE_VERSION"))
+    if "baseline" not in pf or "forecast" not in pf:
+        die("Policy::baseline / Policy::forecast not found")
+    base = pf["baseline"].body
     nums = {}
     for field in ("accept", "material", "unstated_confidence"):
         nums[field] = Fraction(one(rf"\b{field}\s*:\s*([0-9]+(?:\.[0-9]+)?)", base, f"`{field}:` in baseline()"))
@@ -131,85 +284,155 @@ def main():
         if den > 10 ** 9:
             die("baseline thresholds are not finite decimals")
     base_modes = modes_of(base, "baseline()")
+    base_id_expr = one(r"(?<![\w.])id\s*:\s*([^,}]+)", base, "`id:` in baseline()")
+    if string_or_const(pol, base_id_expr, "the id of baseline()") != baseline_id:
+        die("baseline() does not use BASELINE_ID")
+    if not re.search(r"\bversion\s*:\s*BASELINE_VERSION\b", base):
+        die("baseline() does not use BASELINE_VERSION")
 
-    fc = body_of(pol, r"pub\s+fn\s+forecast\s*\(\s*\)\s*->\s*Self\s*\{", "fn forecast")
-    forecast_id = one(r'\bid\s*:\s*"([^"]*)"', fc, "`id:` in forecast()")
+    fc = pf["forecast"].body
+    forecast_id = string_or_const(pol, one(r"(?<![\w.])id\s*:\s*([^,}]+)", fc, "`id:` in forecast()"), "the id of forecast()")
     fc_modes = modes_of(fc, "forecast()")
-    if not re.search(r"\.\.\s*Self::baseline\(\)", fc):
+    if not re.search(r"\.\.\s*(?:Self|Policy)::baseline\(\)", fc):
         die("forecast() no longer inherits the remaining fields from baseline()")
     fc_nostr = re.sub(r'"(\\.|[^"\\])*"', '""', fc)
-    extra = set(re.findall(r"(?<![:\w])(\w+)\s*:(?!:)", fc_nostr)) - {"id", "modes"}
+    extra = set(re.findall(r"(?<![:\w.])(\w+)\s*:(?!:)", fc_nostr)) - {"id", "modes"}
     if extra:
         die(f"forecast() overrides more than id and modes: {sorted(extra)}")
 
-    # mode_exclusion: arms `Some(AssertionMode::X) => "reason"`, `None => "reason"`, `_ => "reason"`
-    me = body_of(pol, r"pub\s+fn\s+mode_exclusion\s*\(", "fn mode_exclusion")
-    arms = re.findall(r'(Some\(\s*AssertionMode::(\w+)\s*\)|None|_)\s*=>\s*"([^"]*)"', me)
-    if len(arms) < 3:
-        die("mode_exclusion arms not recognised")
-    excl = [((a[1].lower() if a[1] else ("none" if a[0] == "None" else "_")), a[2]) for a in arms]
-    if len({k for k, _ in excl}) != len(excl):
-        die("duplicate arm in mode_exclusion")
+    # mode_exclusion (the method of Policy): variant | none | _  ->  reason, canonical order
+    if "mode_exclusion" not in pf:
+        die("Policy::mode_exclusion not found")
+    arms, _ = match_arms(pf["mode_exclusion"].body, r"\w+", "the mode in Policy::mode_exclusion")
+    excl = {}
+    for pat, guard, expr in arms:
+        if guard:
+            die("guarded arm in Policy::mode_exclusion")
+        reason = one(r'"([^"]*)"', expr, f"reason literal in the `{pat}` arm of mode_exclusion")
+        for alt in [a.strip() for a in pat.split("|")]:
+            m = re.fullmatch(r"Some\(\s*AssertionMode::(\w+)\s*\)", alt)
+            key = m.group(1).lower() if m else ("none" if alt == "None" else ("_" if alt == "_" else None))
+            if key is None or key in excl:
+                die(f"mode_exclusion: unreadable or duplicate pattern {alt!r}")
+            excl[key] = reason
+    if "_" not in excl:
+        die("mode_exclusion has no catch-all arm")
+    excl_list = [(k, excl[k]) for k in sorted(k for k in excl if k not in ("none", "_"))] + \
+                ([("none", excl["none"])] if "none" in excl else []) + [("_", excl["_"])]
 
-    # custom suffix and the material <= accept refusal in from_settings
-    fs = body_of(pol, r"pub\s+fn\s+from_settings\s*\(", "fn from_settings")
-    suffix = one(r'format!\(\s*"\{\}([^"]*)"\s*,\s*policy\.id\s*\)', fs, "the custom-id format! in from_settings")
-    refusal = one(r"if\s+policy\.material\s*(>=|>|<=|<)\s*policy\.accept", fs, "the material/accept comparison in from_settings")
-    th = body_of(pol, r"fn\s+threshold\s*\(", "fn threshold")
-    rng = one(r"\(\s*([0-9.]+)\s*\.\.=\s*([0-9.]+)\s*\)\s*\.contains", th, "the inclusive range in threshold()")
+    # from_settings (with private helpers inlined): known names, refusal, custom suffix
+    fs = linearise(pf, "from_settings", keep=("baseline", "forecast"))
+    suffix = one(r'format!\(\s*"\{\}([^"]*)"\s*,\s*\w+\.id\s*\)', fs, "the custom-id format! in from_settings")
+    refusal = one(r"\bif\s+(\w+)\.material\s*(>=|>|<=|<)\s*\1\.accept\b", fs, "the material/accept comparison in from_settings")[1]
+    # which names select which policy: every arm of the name match that yields baseline()/forecast()
+    names = {"baseline": set(), "forecast": set()}
+    for m in re.finditer(r'((?:"[^"]*"|[A-Z][A-Z0-9_]*)(?:\s*\|\s*(?:"[^"]*"|[A-Z][A-Z0-9_]*))*)\s*=>\s*(?:Ok\(\s*)?(?:Policy|Self)::(baseline|forecast)\(\)', fs):
+        for alt in [a.strip() for a in m.group(1).split("|")]:
+            names[m.group(2)].add(alt[1:-1] if alt.startswith('"') else const_str(pol, alt))
+    if not names["baseline"] or not names["forecast"]:
+        die("from_settings: the policy-name arms were not recognised")
+    # threshold(): values inside the inclusive range are accepted, the others refused
+    th = pf.get("threshold")
+    if th is None:
+        die("fn threshold not found")
+    tm = re.search(r"\bif\s*(!?)\s*\(\s*([0-9.]+)\s*\.\.=\s*([0-9.]+)\s*\)\s*\.contains\([^)]*\)\s*\{", th.body)
+    if not tm or len(re.findall(r"\.\.=", th.body)) != 1:
+        die("threshold(): the inclusive range test was not recognised")
+    then_end = matching(th.body, tm.end() - 1, "{", "}")
+    then_has_err = "Err(" in th.body[tm.end():then_end]
+    then_has_ok = "Ok(" in th.body[tm.end():then_end]
+    if then_has_err == then_has_ok:
+        die("threshold(): cannot tell which branch of the range test refuses")
+    in_range_accepted = (tm.group(1) == "!") == then_has_err
+    rng = (tm.group(2), tm.group(3))
 
-    # classify: comparisons in textual order, and the order of the returned statuses
-    cl = body_of(mod, r"fn\s+classify\s*\(", "fn classify")
-    cp = params_of(mod, "classify")
-    if len(cp) != 4:
-        die(f"classify: expected 4 parameters (support, opposition, ledger, policy), found {cp}")
-    p_sup, p_opp, p_led, p_pol = cp
+    # ------------------------------------------------------------------ mod.rs: classify
+    if "classify" not in mf:
+        die("fn classify not found")
+    cf = mf["classify"]
+    if len(cf.params) != 4:
+        die(f"classify: expected 4 parameters (support, opposition, ledger, policy), found {[p for p, _ in cf.params]}")
+    p_sup, p_opp = cf.params[0][0], cf.params[1][0]
+    p_led = param_by_type(cf, r"\bLedger\b", "&Ledger")
+    p_pol = param_by_type(cf, r"\bPolicy\b", "&Policy")
+    cl = linearise(mf, "classify")
     raw = re.findall(rf"\b({p_sup}|{p_opp})\s*(>=|<=|>|<)\s*{p_pol}\s*\.\s*(accept|material)\b", cl)
     cmps = [("support" if a == p_sup else "opposition", b, c) for a, b, c in raw]
     if len(cmps) != 6:
         die(f"classify: expected 6 threshold comparisons, found {len(cmps)}")
     rets = re.findall(r"BeliefStatus::(\w+)", cl)
-    engaged = one(r"let\s+engaged\s*=\s*(.*?);", cl, "`let engaged =` in classify", re.S)
-    engaged_terms = [re.sub(rf"\b{p_led}\s*\.\s*", "", t) for t in
-                     re.findall(rf"({p_led}\s*\.\s*support_groups\s*>\s*0|{p_led}\s*\.\s*opposition_groups\s*>\s*0|!\s*{p_led}\s*\.\s*uncertain\s*\.\s*is_empty\(\))", engaged)]
+    # the engagement test: the local computed from the ledger's group counts, whatever it is called
+    em = re.findall(rf"\blet\s+(\w+)\s*=\s*([^;]*\b{p_led}\s*\.\s*support_groups[^;]*);", cl)
+    if len(em) != 1:
+        die(f"classify: expected exactly one local computed from `{p_led}.support_groups`, found {len(em)}")
+    eng_name, engaged = em[0]
+    term_re = rf"({p_led}\s*\.\s*support_groups\s*>\s*0|{p_led}\s*\.\s*opposition_groups\s*>\s*0|!\s*{p_led}\s*\.\s*uncertain\s*\.\s*is_empty\(\))"
+    engaged_terms = [re.sub(r"\s+", "", re.sub(rf"\b{p_led}\s*\.\s*", "", t)) for t in re.findall(term_re, engaged)]
     engaged_ops = re.findall(r"\|\||&&", engaged)
+    first_if = re.search(r"\bif\s+([^{]*)\{", cl[cl.index(engaged) + len(engaged):])
+    not_engaged_first = bool(first_if and re.fullmatch(rf"!\s*{eng_name}\s*", first_if.group(1)))
 
-    # eligible: status arms, state check, window comparisons, unstated confidence
-    el = body_of(mod, r"fn\s+eligible\s*\(", "fn eligible")
-    ep = params_of(mod, "eligible")
-    if len(ep) != 3:
-        die(f"eligible: expected 3 parameters (row, policy, at), found {ep}")
-    p_row, p_epol, p_at = ep
-    status_arms = re.findall(r'"(\w+)"\s*=>\s*(?:\{\s*\}|return\s+reject\(\s*"(\w+)"\s*\))', el)
-    other_arm = one(r'_\s*=>\s*return\s+reject\(\s*"(\w+)"\s*\)', el, "the `_ =>` status arm in eligible")
-    not_visible = one(rf'if\s+{p_row}\.state\s*!=\s*[\w:]*ACTIVE\s*\{{\s*return\s+reject\(\s*"(\w+)"\s*\)', el, "the state check in eligible")
-    from_cmp = one(rf"{p_row}\.valid_from\.as_str\(\)\s*(>=|<=|>|<)\s*{p_at}\b", el, "the valid_from comparison in eligible")
-    until_cmp = one(rf"{p_row}\.valid_until\.as_str\(\)\s*(>=|<=|>|<)\s*{p_at}\b", el, "the valid_until comparison in eligible")
-    window_reasons = re.findall(rf'{p_row}\.valid_(?:from|until)\.as_str\(\)[^{{]*\{{\s*return\s+reject\(\s*"(\w+)"\s*\)', el)
-    unstated_cmp = one(rf"{p_row}\.confidence\s*(>=|<=|>|<)\s*0\.0", el, "the unstated-confidence test in eligible")
-    # the lifecycle stage has no clock: the evaluation instant is read exactly twice in `eligible`
-    # (the two window comparisons), never before the first window comparison, and the only row
-    # columns read are the ones below (no `retracted_at`, `updated_at`, `superseded_by`, …)
+    # ------------------------------------------------------------------ mod.rs: eligible (call tree)
+    if "eligible" not in mf:
+        die("fn eligible not found")
+    ef = mf["eligible"]
+    p_row = param_by_type(ef, r"\bAssertionRow\b", "&AssertionRow")
+    p_epol = param_by_type(ef, r"\bPolicy\b", "&Policy")
+    p_at = param_by_type(ef, r"^&\s*(?:'\w+\s+)?str$", "&str (the evaluation instant)")
+    el = linearise(mf, "eligible")
+    arms, status_pos = match_arms(el, rf"{p_row}\s*\.\s*status\s*\.\s*as_str\(\)", "row.status.as_str() in eligible")
+    lifecycle, guarded = {}, 0
+    for pat, guard, expr in arms:
+        if guard:
+            # a guarded arm makes the lifecycle table conditional: counted (pinned to 0), not tabulated
+            guarded += 1
+            continue
+        lits = re.findall(r'"(\w+)"', expr)
+        for alt in [a.strip() for a in pat.split("|")]:
+            key = alt[1:-1] if alt.startswith('"') else ("_" if alt == "_" else None)
+            if key is None:
+                die(f"eligible: unreadable status pattern {alt!r}")
+            if key == "active":
+                # the active arm excludes nothing by lifecycle (it may carry the visibility test)
+                lifecycle.setdefault(key, "")
+            else:
+                if len(set(lits)) != 1:
+                    die(f"eligible: the `{key}` status arm does not name exactly one reason")
+                if key in lifecycle:
+                    die(f"eligible: duplicate status arm {key}")
+                lifecycle[key] = lits[0]
+    if "active" not in lifecycle or "_" not in lifecycle:
+        die("eligible: the status match has no `active` or no catch-all arm")
+    status_arms = [("active", "")] + [(k, lifecycle[k]) for k in sorted(k for k in lifecycle if k not in ("active", "_"))] + [("_", lifecycle["_"])]
+
+    def pos(regex, what):
+        ms = list(re.finditer(regex, el))
+        if len(ms) != 1:
+            die(f"eligible: expected exactly one {what}, found {len(ms)}")
+        return ms[0]
+    state_m = pos(rf"{p_row}\s*\.\s*state\s*!=\s*[\w:]*\bACTIVE\b", "visibility test `row.state != …ACTIVE`")
+    not_visible = re.search(r'"(\w+)"', el[state_m.end():state_m.end() + 200])
+    if not not_visible:
+        die("eligible: no reason after the visibility test")
+    from_m = pos(rf"{p_row}\s*\.\s*valid_from\s*\.\s*as_str\(\)\s*(>=|<=|>|<)\s*{p_at}\b", "valid_from comparison")
+    until_m = pos(rf"{p_row}\s*\.\s*valid_until\s*\.\s*as_str\(\)\s*(>=|<=|>|<)\s*{p_at}\b", "valid_until comparison")
+    admits_m = pos(rf"{p_epol}\s*\.\s*admits\(", "`policy.admits(` call")
+    unstated_m = pos(rf"{p_row}\s*\.\s*confidence\s*(>=|<=|>|<)\s*0\.0", "unstated-confidence test")
+    # both window tests are skipped for an empty bound
+    for field in ("valid_from", "valid_until"):
+        if not re.search(rf"!\s*{p_row}\s*\.\s*{field}\s*\.\s*is_empty\(\)\s*&&\s*{p_row}\s*\.\s*{field}\s*\.\s*as_str\(\)", el):
+            die(f"eligible: the `{field}` test is no longer guarded by `!row.{field}.is_empty() &&`")
+    window_reasons = sorted(set(re.findall(r'"(\w+)"', el[from_m.start():admits_m.start()])))
+    stage_pos = {"status": status_pos, "state": state_m.start(), "valid_from": from_m.start(),
+                 "valid_until": until_m.start(), "mode": admits_m.start(), "unstated": unstated_m.start()}
+    stage_order = [k for k, _ in sorted(stage_pos.items(), key=lambda kv: kv[1])]
+    # the lifecycle stage has no clock: the evaluation instant is read exactly in the two window tests
     at_uses = [m.start() for m in re.finditer(rf"(?<![\w.]){p_at}\b", el)]
-    first_window = re.search(rf"{p_row}\.valid_from", el)
-    if not first_window:
-        die("eligible: no valid_from test")
-    at_before_window = sum(1 for i in at_uses if i < first_window.start())
-    row_fields = sorted(set(re.findall(rf"\b{p_row}\.(\w+)", el)))
-    # every arm of the status match must be unguarded (`"x" => …`, never `"x" if … => …`)
-    status_match = re.search(rf"match\s+{p_row}\.status\.as_str\(\)\s*\{{", el)
-    if not status_match:
-        die("eligible: no `match row.status.as_str()`")
-    depth, j = 1, status_match.end()
-    while j < len(el) and depth:
-        depth += el[j] == "{"
-        depth -= el[j] == "}"
-        j += 1
-    status_body = el[status_match.end():j - 1]
-    guarded_arms = len(re.findall(r'("\w+"|_)\s+if\b', status_body))
+    at_before_window = sum(1 for i in at_uses if i < from_m.start())
+    row_fields = sorted(set(re.findall(rf"(?<![\w.]){p_row}\s*\.\s*(\w+)", el)))
 
-    # aggregate: the two side filters, clamp bounds, fold seed
-    ag = body_of(mod, r"fn\s+aggregate\s*\(", "fn aggregate")
+    # ------------------------------------------------------------------ mod.rs: aggregate (call tree)
+    ag = linearise(mf, "aggregate")
     clamp = one(r"\.clamp\(\s*([0-9.]+)\s*,\s*([0-9.]+)\s*\)", ag, "clamp(…) in aggregate")
     side_opp = bool(re.search(r'(\w+)\.opposes_target\s*\|\|\s*\1\.stance\s*==\s*"reject"', ag))
     side_sup = bool(re.search(r'!\s*(\w+)\.opposes_target\s*&&\s*\1\.stance\s*==\s*"support"', ag))
@@ -229,7 +452,7 @@ def main():
     w(f'def forecastId : String := "{forecast_id}"')
     w(f'def customSuffix : String := "{suffix}"')
     w(f"def baselineVersion : Nat := {baseline_version}")
-    w(f"/-- common denominator of the three baseline numbers -/")
+    w("/-- common denominator of the three baseline numbers -/")
     w(f"def baselineDen : Nat := {den}")
     w(f"def baselineAccept : Int := {q(nums['accept'])}")
     w(f"def baselineMaterial : Int := {q(nums['material'])}")
@@ -237,30 +460,38 @@ def main():
     w(f"def baselineExpand : Bool := {expand}")
     w(f"def baselineModes : List String := {lean_str_list(base_modes)}")
     w(f"def forecastModes : List String := {lean_str_list(fc_modes)}")
-    w("/-- `mode_exclusion`: (mode | \"none\" | \"_\") ↦ reason -/")
-    w("def modeExclusion : List (String × String) := [" + ", ".join(f'("{k}", "{v}")' for k, v in excl) + "]")
-    w(f'/-- `from_settings` refuses when `material <op> accept` -/')
+    w("/-- `Policy::mode_exclusion`: (mode | \"none\" | \"_\") ↦ reason (specific modes sorted, then none, then the catch-all) -/")
+    w("def modeExclusion : List (String × String) := [" + ", ".join(f'("{k}", "{v}")' for k, v in excl_list) + "]")
+    w("/-- the names `from_settings` accepts for each policy (sorted) -/")
+    w(f"def baselineNames : List String := {lean_str_list(sorted(names['baseline']))}")
+    w(f"def forecastNames : List String := {lean_str_list(sorted(names['forecast']))}")
+    w("/-- `from_settings` refuses when `material <op> accept` -/")
     w(f'def settingsRefusal : String := "{refusal}"')
+    w("/-- `threshold`: the inclusive range, and whether values inside it are the accepted ones -/")
     w(f'def thresholdRange : String × String := ("{rng[0]}", "{rng[1]}")')
+    w(f"def thresholdInRangeAccepted : Bool := {'true' if in_range_accepted else 'false'}")
     w("/-- `classify`: the threshold comparisons in textual order -/")
     w("def classifyComparisons : List (String × String × String) := [" + ", ".join(f'("{a}", "{b}", "{c}")' for a, b, c in cmps) + "]")
     w(f"def classifyReturns : List String := {lean_str_list(rets)}")
-    engaged_clean = [re.sub(r"\s+", "", t) for t in engaged_terms]
-    w(f"def engagedTerms : List String := {lean_str_list(engaged_clean)}")
+    w(f"def engagedTerms : List String := {lean_str_list(engaged_terms)}")
     w(f"def engagedOps : List String := {lean_str_list(engaged_ops)}")
-    w("/-- `eligible`: status string ↦ exclusion reason (\"\" = passes) -/")
-    w("def statusArms : List (String × String) := [" + ", ".join(f'("{k}", "{v}")' for k, v in status_arms) + f', ("_", "{other_arm}")]')
-    w(f'def notVisibleReason : String := "{not_visible}"')
-    w(f'def validFromExcludedWhen : String := "{from_cmp}"')
-    w(f'def validUntilExcludedWhen : String := "{until_cmp}"')
+    w("/-- the first test of `classify` is `!engaged` -/")
+    w(f"def notEngagedTestedFirst : Bool := {'true' if not_engaged_first else 'false'}")
+    w("/-- `eligible`: status string ↦ lifecycle exclusion reason (\"\" = passes); active, then sorted, then the catch-all -/")
+    w("def statusArms : List (String × String) := [" + ", ".join(f'("{k}", "{v}")' for k, v in status_arms) + "]")
+    w(f'def notVisibleReason : String := "{not_visible.group(1)}"')
+    w(f'def validFromExcludedWhen : String := "{from_m.group(1)}"')
+    w(f'def validUntilExcludedWhen : String := "{until_m.group(1)}"')
     w(f"def windowReasons : List String := {lean_str_list(window_reasons)}")
-    w(f'def unstatedWhenConfidence : String := "{unstated_cmp} 0"')
+    w(f'def unstatedWhenConfidence : String := "{unstated_m.group(1)} 0"')
+    w("/-- the order in which `eligible` (with its helpers inlined) runs its tests -/")
+    w(f"def eligibleStageOrder : List String := {lean_str_list(stage_order)}")
     w(f'def clampBounds : String × String := ("{clamp[0]}", "{clamp[1]}")')
-    w("/-- how often `eligible` reads the evaluation instant, and how often before the window stage -/")
+    w("/-- how often `eligible` (helpers inlined) reads the evaluation instant, and how often before the window stage -/")
     w(f"def evaluationInstantReads : Nat × Nat := ({len(at_uses)}, {at_before_window})")
     w("/-- guarded arms (`\"x\" if … =>`) in the status match of `eligible` -/")
-    w(f"def guardedStatusArms : Nat := {guarded_arms}")
-    w("/-- the row columns `eligible` reads -/")
+    w(f"def guardedStatusArms : Nat := {guarded}")
+    w("/-- the row columns `eligible` (helpers inlined) reads -/")
     w(f"def eligibleRowColumns : List String := {lean_str_list(row_fields)}")
     w("")
     w("-- facts the model and the theorems rely on (fail to check when the source drifts)")
@@ -270,10 +501,11 @@ def main():
     w('theorem gen_baseline_modes : baselineModes = ["observed", "stated", "inferred", "imported"] := by decide')
     w('theorem gen_forecast_modes : forecastModes = ["predicted", "inferred"] := by decide')
     w('theorem gen_mode_exclusion : modeExclusion = [("hypothetical", "hypothetical_not_requested"), ("predicted", "prediction_not_requested"), ("none", "invalid_schema"), ("_", "policy_excluded")] := by decide')
-    w('theorem gen_settings_refusal : settingsRefusal = ">" ∧ thresholdRange = ("0.0", "1.0") ∧ customSuffix = "+custom" := by decide')
+    w('theorem gen_policy_names : baselineNames = ["baseline", "kip:policy:baseline"] ∧ forecastNames = ["forecast", "kip:policy:forecast"] ∧ baselineId = "kip:policy:baseline" ∧ forecastId = "kip:policy:forecast" := by decide')
+    w('theorem gen_settings_refusal : settingsRefusal = ">" ∧ thresholdRange = ("0.0", "1.0") ∧ thresholdInRangeAccepted = true ∧ customSuffix = "+custom" := by decide')
     w('theorem gen_classify_skeleton : classifyComparisons = [("support", ">=", "accept"), ("opposition", "<", "material"), ("opposition", ">=", "accept"), ("support", "<", "material"), ("support", ">=", "material"), ("opposition", ">=", "material")] ∧ classifyReturns = ["Insufficient", "Accepted", "Rejected", "Contested", "Uncertain"] := by decide')
-    w('theorem gen_engaged : engagedTerms = ["support_groups>0", "opposition_groups>0", "!uncertain.is_empty()"] ∧ engagedOps = ["||", "||"] := by decide')
-    w('theorem gen_eligible_skeleton : statusArms = [("active", ""), ("retracted", "retracted"), ("superseded", "superseded"), ("expired", "expired"), ("_", "invalid_schema")] ∧ notVisibleReason = "not_visible" ∧ validFromExcludedWhen = ">" ∧ validUntilExcludedWhen = "<=" ∧ windowReasons = ["outside_valid_time", "outside_valid_time"] ∧ unstatedWhenConfidence = "< 0" ∧ clampBounds = ("0.0", "1.0") := by decide')
+    w('theorem gen_engaged : engagedTerms = ["support_groups>0", "opposition_groups>0", "!uncertain.is_empty()"] ∧ engagedOps = ["||", "||"] ∧ notEngagedTestedFirst = true := by decide')
+    w('theorem gen_eligible_skeleton : statusArms = [("active", ""), ("expired", "expired"), ("retracted", "retracted"), ("superseded", "superseded"), ("_", "invalid_schema")] ∧ notVisibleReason = "not_visible" ∧ validFromExcludedWhen = ">" ∧ validUntilExcludedWhen = "<=" ∧ windowReasons = ["outside_valid_time"] ∧ unstatedWhenConfidence = "< 0" ∧ eligibleStageOrder = ["status", "state", "valid_from", "valid_until", "mode", "unstated"] ∧ clampBounds = ("0.0", "1.0") := by decide')
     w('theorem gen_lifecycle_stage_has_no_clock : evaluationInstantReads = (2, 0) ∧ guardedStatusArms = 0 ∧ eligibleRowColumns = ["_id", "asserted_by_key", "confidence", "evidence_ids", "mode", "stance", "state", "status", "valid_from", "valid_until"] := by decide')
     w("")
     w("end AndaVerif.Gen.BeliefPolicy")
